@@ -918,3 +918,70 @@ func ext۰strings۰TrimSpace(fr *frame, args []value) value {
 	}
 	return mkStr(b[start:end])
 }
+
+// ---- sync/atomic integers (single-goroutine semantics, recorded as sync events)
+
+func atomicCell(args []value) *value {
+	p := args[0].(*value)
+	if s, ok := (*p).(structure); ok {
+		return &s[len(s)-1]
+	}
+	return p
+}
+
+func init() {
+	for _, t := range []string{"Int32", "Int64", "Uint32", "Uint64", "Uintptr", "Bool"} {
+		T := "(*sync/atomic." + t + ")."
+		externals[T+"Load"] = func(fr *frame, a []value) value {
+			fr.i.ps.events = append(fr.i.ps.events, "sync:atomic.Load")
+			return *atomicCell(a)
+		}
+		externals[T+"Store"] = func(fr *frame, a []value) value {
+			fr.i.ps.events = append(fr.i.ps.events, "sync:atomic.Store")
+			if fr.i.mon != nil {
+				fr.i.mon.onStore2(fr, a[0].(*value), "atomic")
+			}
+			*atomicCell(a) = a[1]
+			return nil
+		}
+		externals[T+"Add"] = func(fr *frame, a []value) value {
+			fr.i.ps.events = append(fr.i.ps.events, "sync:atomic.Add")
+			if fr.i.mon != nil {
+				fr.i.mon.onStore2(fr, a[0].(*value), "atomic")
+			}
+			c := atomicCell(a)
+			*c = binopS(fr.i, token.ADD, nil, *c, a[1])
+			return *c
+		}
+		externals[T+"Swap"] = func(fr *frame, a []value) value {
+			fr.i.ps.events = append(fr.i.ps.events, "sync:atomic.Swap")
+			if fr.i.mon != nil {
+				fr.i.mon.onStore2(fr, a[0].(*value), "atomic")
+			}
+			c := atomicCell(a)
+			old := *c
+			*c = a[1]
+			return old
+		}
+		externals[T+"CompareAndSwap"] = func(fr *frame, a []value) value {
+			fr.i.ps.events = append(fr.i.ps.events, "sync:atomic.CompareAndSwap")
+			c := atomicCell(a)
+			eq := equalsT(nil, *c, a[1])
+			if fr.i.decide(eq, "atomic.CAS") {
+				if fr.i.mon != nil {
+					fr.i.mon.onStore2(fr, a[0].(*value), "atomic")
+				}
+				*c = a[2]
+				return true
+			}
+			return false
+		}
+	}
+	for _, t := range []string{"Int32", "Int64", "Uint32", "Uint64", "Uintptr"} {
+		externals["sync/atomic.Load"+t] = externals["(*sync/atomic."+t+").Load"]
+		externals["sync/atomic.Store"+t] = externals["(*sync/atomic."+t+").Store"]
+		externals["sync/atomic.Add"+t] = externals["(*sync/atomic."+t+").Add"]
+		externals["sync/atomic.Swap"+t] = externals["(*sync/atomic."+t+").Swap"]
+		externals["sync/atomic.CompareAndSwap"+t] = externals["(*sync/atomic."+t+").CompareAndSwap"]
+	}
+}
